@@ -260,6 +260,12 @@ def main():
             rule_hits[k] = rule_hits.get(k, 0) + v
         us["dropped"] = g.dropped
         us["generated_sha256"] = g.sha
+        # mechanical scan of the generated file for every construct that is an assumption, not a proof
+        scan = {}
+        for pat, name in ((r'#\[verifier::external_body\]', "external_body"), (r'\bassume_specification\b', "assume_specification"), (r'\baxiom fn\b', "axiom fn"),
+                          (r'\bassume\s*\(', "assume("), (r'\badmit\s*\(', "admit("), (r'\buninterp spec fn\b', "uninterp spec fn")):
+            scan[name] = len(re.findall(pat, g.text))
+        us["assumption_constructs_in_generated_file"] = scan
         # failures relevant to this property; a failure must be confirmed by every re-run
         ftags = fn_tags(g)
         rel = [fl for fl in r.failures if relevant(fl, pid, serves, ftags, u, kfs)]
